@@ -1,0 +1,115 @@
+// Copyright 2025 The Go Authors. All rights reserved.
+// Use of this source code is governed by a BSD-style
+// license that can be found in the LICENSE file.
+
+//go:build verif
+
+package quicwire
+
+// Contracts, spec functions and lemma harnesses for the deductive verifier in /verif (govc).
+// This file is compiled only with -tags verif; it adds no behaviour to the package.
+
+// specSize is the RFC 9000 section 16 length of the shortest encoding of v.
+//
+//@ pure
+func specSize(v uint64) int {
+	switch {
+	case v < 1<<6:
+		return 1
+	case v < 1<<14:
+		return 2
+	case v < 1<<30:
+		return 4
+	}
+	return 8
+}
+
+// beAt is the big-endian value of the n (1, 2, 4 or 8) bytes of b starting at off.
+//
+//@ pure
+func beAt(b []byte, off int, n int) uint64 {
+	switch n {
+	case 1:
+		return uint64(b[off])
+	case 2:
+		return uint64(b[off])<<8 | uint64(b[off+1])
+	case 4:
+		return uint64(b[off])<<24 | uint64(b[off+1])<<16 | uint64(b[off+2])<<8 | uint64(b[off+3])
+	case 8:
+		return uint64(b[off])<<56 | uint64(b[off+1])<<48 | uint64(b[off+2])<<40 | uint64(b[off+3])<<32 |
+			uint64(b[off+4])<<24 | uint64(b[off+5])<<16 | uint64(b[off+6])<<8 | uint64(b[off+7])
+	}
+	return 0
+}
+
+// lg is log2 of an encoding length.
+//
+//@ pure
+func lg(n int) uint64 {
+	switch n {
+	case 1:
+		return 0
+	case 2:
+		return 1
+	case 4:
+		return 2
+	}
+	return 3
+}
+
+//@ func SizeVarint(v) (n)
+//@   requires v <= MaxVarint
+//@   ensures  n == specSize(v)
+//@
+//@ func AppendVarint(b, v) (out)
+//@   requires v <= MaxVarint
+//@   ensures  len(out) == len(b) + specSize(v)
+//@   ensures  forall i int :: 0 <= i && i < len(b) ==> out[i] == old(b[i])
+//@   ensures  beAt(out, len(b), specSize(v)) == v | lg(specSize(v))<<(8*uint64(specSize(v))-2)
+//@   modifies elems(b)
+//@
+//@ func ConsumeVarint(b) (v, n)
+//@   ensures  len(b) == 0 ==> n == -1
+//@   ensures  len(b) > 0 && len(b) < 1<<(b[0]>>6) ==> n == -1
+//@   ensures  len(b) > 0 && len(b) >= 1<<(b[0]>>6) ==> n == 1<<(b[0]>>6) && v == beAt(b, 0, n) & (1<<(8*uint64(n)-2) - 1)
+//@   ensures  n == -1 ==> v == 0
+//@   ensures  v <= MaxVarint
+//@
+//@ func ConsumeVarintInt64(b) (v, n)
+//@   ensures  len(b) == 0 ==> n == -1
+//@   ensures  len(b) > 0 && len(b) < 1<<(b[0]>>6) ==> n == -1
+//@   ensures  len(b) > 0 && len(b) >= 1<<(b[0]>>6) ==> n == 1<<(b[0]>>6) && uint64(v) == beAt(b, 0, n) & (1<<(8*uint64(n)-2) - 1)
+//@   ensures  v >= 0
+
+// lemmaVarintRoundTrip: for every v <= 2^62-1, every prefix and every suffix, decoding what
+// AppendVarint produced yields v and consumes exactly the bytes that were appended.
+//
+//@ lemma
+//@ requires v <= MaxVarint
+//@ ensures ok
+func lemmaVarintRoundTrip(v uint64, pre, rest []byte) (ok bool) {
+	b := AppendVarint(pre, v)
+	mid := len(b)
+	b = append(b, rest...)
+	got, n := ConsumeVarint(b[len(pre):])
+	return got == v && n == SizeVarint(v) && n == mid-len(pre)
+}
+
+// lemmaVarintShortest: the encoding length is minimal.
+//
+//@ lemma
+//@ requires v <= MaxVarint
+//@ ensures ok
+func lemmaVarintShortest(v uint64) (ok bool) {
+	n := SizeVarint(v)
+	return (n == 1) == (v < 1<<6) && (n <= 2) == (v < 1<<14) && (n <= 4) == (v < 1<<30) && n <= 8
+}
+
+// lemmaVarintTruncated: a truncated input is an error, never an over-read.
+//
+//@ lemma
+//@ ensures ok
+func lemmaVarintTruncated(b []byte) (ok bool) {
+	_, n := ConsumeVarint(b)
+	return n <= len(b) && (n == -1 || n == 1 || n == 2 || n == 4 || n == 8)
+}
